@@ -924,10 +924,80 @@ def u_classic(ctx, base):
                                for w in spec["wrappers"]])
             run.run(v, K, T, static=False)
     run.finish()
+    _closed_loop(ctx, base)
     for m in ("observations_checked", "episode_ends", "sampled_actions_checked", "contains_agreement_eager",
               "rerun_comparisons", "rebuilt_env_comparisons", "fresh_process_comparisons", "typed_signatures_checked",
-              "documented_spaces_compared", "bound_touches" if base != "CartPole" else "observations_checked_episode-end-successor"):
+              "documented_spaces_compared", "bound_touches" if base != "CartPole" else "observations_checked_episode-end-successor",
+              "closed_loop_observations_checked"):
         ctx.require(m, 1)
+
+
+def _closed_loop(ctx, base):
+    """Hostile *closed-loop* action sequences (in-space actions chosen from the observation) reach states
+    that open-loop random / corner / constant drivers never do: a balanced CartPole driven along the track,
+    energy pumping in the mountain cars, Acrobot and Pendulum up to their velocity limits and walls."""
+    import equinox as eqx
+    import jax
+    import jax.numpy as jnp
+    from jax import lax
+    from jax import random as jr
+
+    def controller(obs, side):
+        if base == "CartPole":
+            x, xd, th, thd = obs
+            thref = jnp.clip(0.02 * (side * 10.0 - x) - 0.05 * xd, -0.05, 0.05)
+            return ((th - thref) + 0.3 * thd > 0).astype(int)
+        if base == "MountainCar":
+            return jnp.where(side * obs[1] >= 0, 2, 0) if False else jnp.where(obs[1] * side >= 0, jnp.where(side > 0, 2, 0), jnp.where(side > 0, 0, 2))
+        if base == "ContinuousMountainCar":
+            return jnp.where(obs[1] * side >= 0, side * 1.0, -side * 1.0)
+        if base == "Acrobot":
+            return jnp.where(obs[4] * side >= 0, 2, 0)
+        return jnp.where(obs[2] * side >= 0, 2.0, -2.0) * side  # Pendulum: spin up
+
+    K, T = 16, ctx.n(600, 1500)
+    for solver in (["Tsit5", "Euler"] if not ctx.quick else ["Tsit5"]):
+        env = build_env({"base": base, "kw": {"solver": solver}, "wrappers": []})
+        om = space_model(env.observation_space)
+
+        def roll(key, side):
+            k0, k1 = jr.split(key)
+            st, obs, _ = env.reset(key=k0)
+
+            def body(c, k):
+                st, obs = c
+                a = jnp.asarray(controller(obs, side)).astype(env.action_space.canonical().dtype).reshape(env.action_space.shape)
+                succ = env.observation(env.transition(st, a, key=k), key=k)
+                st, obs2, r, te, tr, _ = env.step(st, a, key=k)
+                return (st, obs2), (obs2, succ, r, te, tr)
+
+            return lax.scan(body, (st, obs), jr.split(k1, T))[1]
+
+        sides = jnp.asarray([1.0, -1.0] * (K // 2))
+        obs, succ, rew, te, tr = jax.tree.map(np.asarray, eqx.filter_jit(jax.vmap(roll))(jr.split(ctx.key(77), K), sides))
+        ends = te | tr
+        ctx.monitor("closed_loop_episode_ends", int(ends.sum()))
+        for sname, X in (("step", obs.reshape((K * T,) + obs.shape[2:])), ("episode-end-successor", succ.reshape((K * T,) + succ.shape[2:])[ends.reshape(-1)])):
+            if X.shape[0] == 0:
+                continue
+            j = judge(om, X)
+            ctx.monitor("closed_loop_observations_checked", j["N"])
+            if j["structural"]:
+                ctx.violation(f"{base.lower()}-obs-not-of-declared-shape-or-dtype", {"driver": "closed-loop", "problem": j["structural"]})
+                continue
+            ctx.monitor("closed_loop_bound_touches", int(j["touch"].sum()))
+            if j["nan"].any():
+                ctx.violation(f"{base.lower()}-obs-nan", {"driver": "closed-loop", "stream": sname, "solver": solver})
+            if j["out"].any():
+                i = int(np.argmax(j["excess"]))
+                ctx.violation(f"{base.lower()}-obs-out-of-bounds" + ("-at-episode-end-successor" if sname != "step" else ""),
+                              {"driver": "closed-loop", "stream": sname, "solver": solver, "obs": X[i], "excess": float(j["excess"][i]),
+                               "low": om["low"], "high": om["high"], "count": int(j["out"].sum())})
+        if not np.all(np.isfinite(rew)):
+            ctx.violation(f"{base.lower()}-reward-not-finite", {"driver": "closed-loop", "solver": solver})
+        for k in range(K):
+            ctx.case({"base": base, "driver": "closed-loop", "solver": solver, "key": k, "ends": int(ends[k].sum())},
+                     nontrivial=bool(ends[k].any()) or base == "Pendulum", cls=f"{base}/closed-loop")
 
 
 # ====================================================================== MuJoCo
@@ -976,6 +1046,9 @@ def u_mujoco(ctx, base):
             run.run({"base": base, "kw": kw, "wrappers": pools[(i - 1) % 3] if (ctx.quick or i % 2 == 1) else [tl()]}, K, T)
     if len(variants) == 1 or not ctx.quick:
         run.run({"base": base, "kw": {}, "wrappers": [["RescaleAction", {}], ["ClipObservation", {}], ["ClipReward", {"min": -0.5, "max": 0.5}], tl()]}, K, T)
+    # ClipAction alone (unbounded action space, corner drivers use +-1e6 / +-3e38) with no reward post-processing:
+    # the inner reward must still be finite, i.e. it must have been computed from the clipped action
+    run.run({"base": base, "kw": {}, "wrappers": [["ClipAction", {}], tl()]}, K, T)
     run.finish()
     for m in ("observations_checked", "episode_ends", "sampled_actions_checked", "contains_agreement_eager",
               "rerun_comparisons", "fresh_process_comparisons", "typed_signatures_checked", "documented_spaces_compared"):
